@@ -59,6 +59,13 @@ func (s *State) clone() *State {
 	return n
 }
 
+// interiorPtr: the reference standing for &p.f and the location p.f itself
+type interiorPtr struct {
+	ref Val
+	lv  *lval
+	pc  string // path condition under which the pointer was taken (on other paths it does not exist)
+}
+
 type retState struct {
 	st   *State
 	vals []Val
@@ -101,6 +108,9 @@ type Exec struct {
 	inRets   [][]*retState // stack for inlined calls
 	inRes    [][]*types.Var
 	spawns   bool
+	varargsByCall map[*ast.CallExpr][]Val // the individual arguments packed into the variadic parameter at a call
+	interiors []interiorPtr // interior pointers taken so far (&p.f, &s[i]): copies kept in step with the location they stand for
+	spawnMode int // > 0 while the calls of a go statement are looked at (call-site assertions and call-history ghosts only)
 	safety   bool
 	lvWrite  bool // the lvalue being resolved is the target of a write
 	rawByCall map[*ast.CallExpr][]Val
@@ -345,7 +355,14 @@ func (x *Exec) lookupHeap(st *State, key, sort string) Val {
 func (x *Exec) deref(st *State, ptr Val, elemT types.Type) Val {
 	es := x.vc.sortOf(elemT)
 	h := x.heapFor(st, elemT)
-	return Val{T: fmt.Sprintf("(select %s %s)", h.T, ptr.T), Sort: es, GoT: elemT}
+	v := Val{T: fmt.Sprintf("(select %s %s)", h.T, ptr.T), Sort: es, GoT: elemT}
+	// a map or slice read through a pointer is a well-formed one (a nil map has no keys, lengths are not negative)
+	if inf := x.vc.info(es); inf != nil && (inf.Kind == kMap || inf.Kind == kSlice) && !strings.Contains(v.T, "!q") {
+		if w := x.vc.wf(v); w != "true" && w != "" {
+			x.vc.termFact(w)
+		}
+	}
+	return v
 }
 
 func (x *Exec) storeRef(st *State, ptr Val, elemT types.Type, v Val) {
@@ -781,12 +798,7 @@ func (x *Exec) execStmt(st *State, s ast.Stmt, label string) *flow {
 	case *ast.GoStmt:
 		// dropped: the spawned body is not verified (DESIGN §2.3); arguments are evaluated
 		x.spawns = true
-		x.vc.note("go statement dropped (spawned body not verified)")
-		for _, a := range s.Call.Args {
-			if _, isLit := a.(*ast.FuncLit); !isLit {
-				x.ev(st, a)
-			}
-		}
+		x.execSpawn(st, s)
 		out.normal = st
 	case *ast.SendStmt:
 		x.ev(st, s.Value)
@@ -1343,6 +1355,7 @@ type loopCtx struct {
 	pos   token.Pos
 	body  *ast.BlockStmt
 	head  *State // the state at the head of the iteration being executed (after the invariants are assumed)
+	headNames map[string]Val // the loop names (counters) at that point
 }
 
 func (x *Exec) loopSpec(pos token.Pos, fingerprint string) (int, *LoopSpec) {
@@ -1423,6 +1436,7 @@ func (x *Exec) checkInvs(st *State, lc *loopCtx, phase string) {
 			env.names[k] = v
 		}
 		env.prev = lc.head
+		env.prevNames = lc.headNames
 		for j, cj := range splitConj(sc.Expr) {
 			g := env.boolean(cj)
 			name := fmt.Sprintf("step%d.%d", lc.n, i+1)
@@ -1433,6 +1447,40 @@ func (x *Exec) checkInvs(st *State, lc *loopCtx, phase string) {
 				name += fmt.Sprintf(".%d", j+1)
 			}
 			x.assertNamed(st, name, "loop-step", g, "every iteration: "+exprText(cj), token.Position{Filename: sc.File, Line: sc.Line})
+		}
+	}
+}
+
+// checkBreaks: on_break clauses, at every state in which the loop is left by a break
+func (x *Exec) checkBreaks(brk []*State, lc *loopCtx) {
+	if lc.spec == nil || len(lc.spec.OnBreak) == 0 {
+		return
+	}
+	for bi, b := range brk {
+		if b == nil {
+			continue
+		}
+		for i, oc := range lc.spec.OnBreak {
+			env := x.specEnvAt(b, lc.body.Lbrace+1)
+			for k, v := range lc.names {
+				env.names[k] = v
+			}
+			env.prev = lc.head
+			env.prevNames = lc.headNames
+			for j, cj := range splitConj(oc.Expr) {
+				g := env.boolean(cj)
+				name := fmt.Sprintf("break%d.%d", lc.n, i+1)
+				if oc.Label != "" {
+					name = fmt.Sprintf("break%d.%s", lc.n, oc.Label)
+				}
+				if j > 0 {
+					name += fmt.Sprintf(".%d", j+1)
+				}
+				if bi > 0 {
+					name += fmt.Sprintf("@%d", bi+1)
+				}
+				x.assertNamed(b, name, "loop-break", g, "whenever the loop is left by a break: "+exprText(cj), token.Position{Filename: oc.File, Line: oc.Line})
+			}
 		}
 	}
 }
@@ -1449,6 +1497,10 @@ func (x *Exec) assumeInvs(st *State, lc *loopCtx) {
 		x.assume(st, env.boolean(inv.Expr))
 	}
 	lc.head = st.clone()
+	lc.headNames = map[string]Val{}
+	for k, v := range lc.names {
+		lc.headNames[k] = v
+	}
 }
 
 // modifiedBy runs the loop body once in dry mode and reports which state keys it may change.
@@ -1588,6 +1640,7 @@ func (x *Exec) execFor(st *State, s *ast.ForStmt, label string) *flow {
 	if ends[0] != nil {
 		x.checkInvs(ends[0], lc, "pres")
 	}
+	x.checkBreaks(ends[1:], lc)
 	out.normal = x.merge(append([]*State{exit}, ends[1:]...))
 	if s.Cond == nil {
 		// infinite loop: only breaks leave it
@@ -1702,6 +1755,7 @@ func (x *Exec) execRange(st *State, s *ast.RangeStmt, label string) *flow {
 			setIdx(lc.names, x.vc.arith("+", idx, x.vc.intLit(1), true))
 			x.checkInvs(end, lc, "pres")
 		}
+		x.checkBreaks(brk, lc)
 		out.normal = x.merge(append([]*State{exit}, brk...))
 	case *types.Map:
 		inf := x.vc.info(coll.Sort)
@@ -1754,6 +1808,7 @@ func (x *Exec) execRange(st *State, s *ast.RangeStmt, label string) *flow {
 			setNames(fmt.Sprintf("(store %s %s true)", seen, k), x.vc.arith("+", cnt, x.vc.intLit(1), true))
 			x.checkInvs(end, lc, "pres")
 		}
+		x.checkBreaks(brk, lc)
 		out.normal = x.merge(append([]*State{exit}, brk...))
 	default:
 		// channels, strings, functions: body executed for an unconstrained element, zero or more times
@@ -1788,6 +1843,7 @@ func (x *Exec) execRange(st *State, s *ast.RangeStmt, label string) *flow {
 		if end != nil {
 			x.checkInvs(end, lc, "pres")
 		}
+		x.checkBreaks(brk, lc)
 		out.normal = x.merge(append([]*State{exit}, brk...))
 	}
 	return out
@@ -1835,6 +1891,9 @@ func (x *Exec) aliasable(obj types.Object, rhs ast.Expr) bool {
 		if sel := x.selOf(r); sel != nil && sel.Kind() == types.FieldVal {
 			return true
 		}
+	case *ast.StarExpr:
+		// m := *p with p a pointer to a map: m and *p are the same map object
+		return true
 	}
 	return false
 }
@@ -1897,4 +1956,159 @@ func (x *Exec) noteCtxDone(st *State, ch ast.Expr) {
 	cur := x.lookupHeap(st, "G:$ctxdone", setSort)
 	nv := Val{T: fmt.Sprintf("(store %s %s true)", cur.T, c.T), Sort: setSort}
 	st.heap["G:$ctxdone"] = x.nameAlways("ctxdone", nv)
+}
+
+// execSpawn: a go statement. The spawned body is not verified and has no effect on the caller's state, with one
+// exception: WHAT is spawned is call history. The calls the statement makes - the spawned call itself, or the
+// leading call statements of a spawned function literal - are looked at in "spawn mode": the caller's at_call
+// assertions for the callee are checked and the callee's call-history ghosts (records / counts) are updated; no
+// precondition, frame or postcondition of the callee is used. A variable the literal captures that the enclosing
+// function assigns again (in particular the per-loop variables of the enclosing for/range statements, which all
+// iterations share in a module whose go directive is older than 1.22) has an arbitrary value when the goroutine
+// runs: it is havocked for the spawned calls.
+func (x *Exec) execSpawn(st *State, s *ast.GoStmt) {
+	var args []Val
+	for _, a := range s.Call.Args {
+		if _, isLit := a.(*ast.FuncLit); !isLit {
+			args = append(args, x.ev(st, a))
+		} else {
+			args = append(args, Val{})
+		}
+	}
+	if x.contract == nil || x.dry > 0 || len(x.inRes) > 0 || x.spawnMode > 0 {
+		x.vc.note("go statement dropped (spawned body not verified)")
+		return
+	}
+	saved := st.clone()
+	x.spawnMode++
+	func() {
+		defer func() {
+			x.spawnMode--
+			if r := recover(); r != nil {
+				if _, isU := r.(unsupportedErr); isU {
+					x.vc.note("go statement dropped (spawned call outside the modelled subset)")
+					*st = *saved
+					return
+				}
+				panic(r)
+			}
+		}()
+		switch f := unparen(s.Call.Fun).(type) {
+		case *ast.FuncLit:
+			i := 0
+			for _, fl := range f.Type.Params.List {
+				for _, n := range fl.Names {
+					if obj := x.objOf(n); obj != nil && n.Name != "_" && i < len(args) {
+						st.vars[obj] = args[i]
+					}
+					i++
+				}
+			}
+			x.havocUnstableCaptures(st, f)
+			for _, stmt := range f.Body.List {
+				if _, isDefer := stmt.(*ast.DeferStmt); isDefer {
+					continue
+				}
+				if es, ok := stmt.(*ast.ExprStmt); ok {
+					if call, ok := unparen(es.X).(*ast.CallExpr); ok {
+						x.evCall(st, call)
+						continue
+					}
+				}
+				x.vc.note("go statement: the spawned literal is modelled up to its first statement that is not a call")
+				break
+			}
+		default:
+			x.evCall(st, s.Call)
+		}
+	}()
+	// nothing the spawned calls did is visible to the caller, except the call-history ghosts (and the facts
+	// that define their new values, which live in the path condition)
+	pc := st.pc
+	for k, v := range st.heap {
+		if strings.HasPrefix(k, "G:") {
+			saved.heap[k] = v
+		}
+	}
+	*st = *saved
+	st.pc = pc
+	x.vc.note("go statement: spawned body not verified (call-site assertions and call-history ghosts only)")
+}
+
+// havocUnstableCaptures gives an arbitrary value to every variable of the enclosing function that the literal
+// reads and that the enclosing function assigns other than by its declaration (or declares as a loop variable).
+func (x *Exec) havocUnstableCaptures(st *State, lit *ast.FuncLit) {
+	if x.body == nil {
+		return
+	}
+	unstable := map[types.Object]bool{}
+	mark := func(e ast.Expr) {
+		if id, ok := unparen(e).(*ast.Ident); ok {
+			if o := x.objOf(id); o != nil {
+				unstable[o] = true
+			}
+		}
+	}
+	ast.Inspect(x.body, func(n ast.Node) bool {
+		switch v := n.(type) {
+		case *ast.AssignStmt:
+			if v.Tok != token.DEFINE {
+				for _, l := range v.Lhs {
+					mark(l)
+				}
+			} else {
+				// a := redeclaration that reuses an existing variable assigns it
+				for _, l := range v.Lhs {
+					if id, ok := l.(*ast.Ident); ok && x.pkg.TypesInfo.Defs[id] == nil {
+						mark(l)
+					}
+				}
+			}
+		case *ast.IncDecStmt:
+			mark(v.X)
+		case *ast.UnaryExpr:
+			if v.Op == token.AND {
+				mark(v.X)
+			}
+		case *ast.RangeStmt:
+			if v.Tok == token.DEFINE && lit.Pos() >= v.Pos() && lit.End() <= v.End() {
+				if v.Key != nil {
+					mark(v.Key)
+				}
+				if v.Value != nil {
+					mark(v.Value)
+				}
+			}
+		case *ast.ForStmt:
+			if lit.Pos() >= v.Pos() && lit.End() <= v.End() {
+				if as, ok := v.Init.(*ast.AssignStmt); ok {
+					for _, l := range as.Lhs {
+						mark(l)
+					}
+				}
+			}
+		}
+		return true
+	})
+	seen := map[types.Object]bool{}
+	ast.Inspect(lit.Body, func(n ast.Node) bool {
+		id, ok := n.(*ast.Ident)
+		if !ok {
+			return true
+		}
+		o, isVar := x.objOf(id).(*types.Var)
+		if !isVar || seen[o] || !unstable[o] || x.isGlobal(o) || o.IsField() {
+			return true
+		}
+		if o.Pos() >= lit.Pos() && o.Pos() <= lit.End() {
+			return true // declared inside the literal
+		}
+		seen[o] = true
+		if x.boxed[o] {
+			return true // address-taken: lives in the heap; its value at spawn time is not relied on either
+		}
+		st.vars[o] = x.havocVal(st, "captured_"+o.Name(), o.Type())
+		x.vc.note("go statement: captured variable " + o.Name() + " is assigned elsewhere in the function: arbitrary when the goroutine runs")
+		return true
+	})
 }
